@@ -205,6 +205,17 @@ def wheelRange (t : PyAbi) : Option (Spec Ver) :=
 def pyScore (t : PyAbi) (k : Nat) : Nat × Nat × Nat :=
   ((digitsToNat? t.major).getD 0, (digitsToNat? t.minor).getD 0, k)
 
+/-- the characters of the ABI tag after the python tag (`abi_impl[len(python_tag):]`) -/
+def abiFlags (t : PyAbi) : List Char := t.abiImpl.toList.drop t.pyLower.toList.length
+
+/-- a concrete ABI tag fits the python tag (after the `fix:` for D28): it is the python tag followed by ABI
+    flags only — what follows must not start with a digit (cp31 is not cp310) — and `t` among the flags says
+    free-threaded -/
+def abiGate (impl : Option Impl) (t : PyAbi) : Bool :=
+  t.pyLower.toList.isPrefixOf t.abiImpl.toList &&
+  !(match (abiFlags t).head? with | some c => c.isDigit | none => false) &&
+  (match impl with | some i => ((abiFlags t).contains 't') == i.gilDisabled | none => true)
+
 /-- the body of `_evaluate_python` after slicing (tags.py:159-205) -/
 def evalPyCore (rp : Spec Ver) (impl : Option Impl) (t : PyAbi) : Option (Nat × Nat × Nat) :=
   if (match impl with | some i => !(t.impl == i.short || t.impl == "py") | none => false) then none
@@ -214,9 +225,7 @@ def evalPyCore (rp : Spec Ver) (impl : Option Impl) (t : PyAbi) : Option (Nat ×
       match abi3Range t with
       | none => none
       | some w => if (w.and rp).isEmpty then none else some (pyScore t 1)
-  else if t.abiImpl != "none" &&
-      (!(t.abiImpl.startsWith t.pyLower) ||
-       (match impl with | some i => (t.abiImpl.endsWith "t") != i.gilDisabled | none => false)) then none
+  else if t.abiImpl != "none" && !abiGate impl t then none
   else
     match wheelRange t with
     | none => none
